@@ -61,11 +61,19 @@ func (pc *parentController) callHook(
 		return nil, nil
 	}
 
+	// Drop null entries: they carry no desired state and would be
+	// dereferenced when the desired children are indexed.
+	children := response.Children[:0]
 	for _, child := range response.Children {
-		if child != nil && child.GetNamespace() == "" {
+		if child == nil {
+			continue
+		}
+		if child.GetNamespace() == "" {
 			child.SetNamespace(parent.GetNamespace())
 		}
+		children = append(children, child)
 	}
+	response.Children = children
 
 	return &response, nil
 }
